@@ -40,11 +40,16 @@ BlocksOK9(img, kind, blocks, tree, firstOff, perSlot) ==
        /\ b.zlibOk = 1 /\ b.nitems >= 1
        /\ (img.uncompressBufSize > 0 => b.rawLen <= img.uncompressBufSize)
        /\ b.nitems <= perSlot
-       /\ b.onechrom = 1
-       \* the leaf item of the index describes exactly this block: extent and span = hull of its items
+       \* the leaf item of the index describes exactly this block: extent and span = hull of its items.
+       \* A data block holds one chromosome; a ZOOM block may be packed across chromosome boundaries (kent's
+       \* writers do that; bigtools' own writer does not): its span then runs from its first to its last record.
        /\ tree.leafext[i] = <<b.off, b.size>>
-       /\ tree.leaves[i][1] = b.chrom /\ tree.leaves[i][3] = b.chrom
-       /\ tree.leaves[i][2] = b.minstart /\ tree.leaves[i][4] = b.maxend
+       /\ IF b.onechrom = 1
+          THEN /\ tree.leaves[i][1] = b.chrom /\ tree.leaves[i][3] = b.chrom
+               /\ tree.leaves[i][2] = b.minstart /\ tree.leaves[i][4] = b.maxend
+          ELSE /\ kind = "zoom"
+               /\ tree.leaves[i][1] = b.chrom /\ tree.leaves[i][2] = b.firststart
+               /\ tree.leaves[i][3] = b.lastchrom /\ tree.leaves[i][4] = b.lastend
   /\ Len(tree.leaves) = Len(blocks)
   \* data blocks are contiguous from the given offset, in index order
   /\ (Len(blocks) > 0 => blocks[1].off = firstOff)
@@ -55,7 +60,10 @@ TreeOK9(t, endOff, blocks) ==
   \* "end of the indexed data": where the index starts, or where the last block ends
   /\ (t.endFileOffset = endOff \/ (Len(blocks) > 0 /\ t.endFileOffset = blocks[Len(blocks)].off + blocks[Len(blocks)].size))
   /\ (Len(t.leaves) > 0 =>
-        LET secs == Map(LAMBDA lf : <<lf[1], lf[2], lf[4]>>, t.leaves) IN TreeVerdict(t, secs) = "ok")
+        IF \A i \in 1..Len(t.leaves) : t.leaves[i][1] = t.leaves[i][3]
+        THEN LET secs == Map(LAMBDA lf : <<lf[1], lf[2], lf[4]>>, t.leaves) IN TreeVerdict(t, secs) = "ok"
+        \* an index over blocks that span chromosomes (zoom data of other writers): pointers, containment, item count
+        ELSE LET im == ImgOf(t) IN PtrsOK(im) /\ ContainOK(im) /\ t.itemCount = Len(t.leaves) /\ t.blockSize >= 2)
 
 WellFormed(img, kind, usedChroms, sizes, sortedInput) ==
   /\ img.error = 0
